@@ -57,10 +57,24 @@ def diff_side(ctx, prop, lines):
     cases = []
     if not lines:
         return cases
-    hb = prop.harness(ctx)
-    hcmd = hb if isinstance(hb, list) else [hb]
     kw = getattr(prop, "RUN_KW", {})
-    i_out = C.run_sharded(hcmd, lines, **kw)
+    by_op = getattr(prop, "HARNESS_FOR_OP", None)     # optional: {op word: function(ctx) -> harness cmd}
+    if by_op:
+        i_out = [None] * len(lines)
+        groups = {}
+        for k, l in enumerate(lines):
+            groups.setdefault(l.split(" ", 1)[0], []).append(k)
+        for op, idx in groups.items():
+            hb = (by_op.get(op) or prop.harness)(ctx)
+            hcmd = hb if isinstance(hb, list) else [hb]
+            okw = dict(kw); okw.update(getattr(prop, "RUN_KW_FOR_OP", {}).get(op, {}))
+            outs = C.run_sharded(hcmd, [lines[k] for k in idx], **okw)
+            for k, o in zip(idx, outs):
+                i_out[k] = o
+    else:
+        hb = prop.harness(ctx)
+        hcmd = hb if isinstance(hb, list) else [hb]
+        i_out = C.run_sharded(hcmd, lines, **kw)
     m_out = C.run_sharded([C.driver_path()], lines, per_line_crash="model-crash")
     for line, i, m in zip(lines, i_out, m_out):
         mm, ss = split_ms(m)
